@@ -34,6 +34,9 @@ def unhexGo : List Char → Bytes → Option Bytes
 def unhex (s : String) : Option Bytes :=
   if s = "-" then some [] else unhexGo s.toList []
 
+def strDrop (s : String) (n : Nat) : String := String.ofList (s.toList.drop n)
+def strDropEnd (s : String) (n : Nat) : String := String.ofList (s.toList.take (s.length - n))
+
 def parseInt (s : String) : Option Int := s.toInt?
 def parseNat (s : String) : Option Nat := s.toNat?
 def parseBool (s : String) : Option Bool :=
